@@ -9,9 +9,9 @@ a2ml_specification! {
     };
 
     enum Mode {
-        "OFF" = 0,
-        "ON" = 1,
-        "AUTO"
+        "OFF" = 0, /// switched off
+        "ON" = 1, /// switched on
+        "AUTO" /// decided by the ECU
     };
 
     taggedstruct Timing {
